@@ -34,7 +34,7 @@ def obligations(tier):
     t = 200 if tier == "quick" else 600
     keep = ("integer_property", "float_property", "boolean_property", "string_property", "enum_openvocab_property", "list_property", "slot_model",
             "strict_id_language")
-    obls = [o for o in C02.obligations(tier) if o.name in keep]
+    obls = [o for o in C02.obligations(tier) if o.name in keep or o.name.startswith("cc_")]      # cc_*: satisfied co-constraints are accepted (both directions asserted)
     for p in range(8):
         obls.append(CH("slots_accept_legal_values_p%d" % p, H, "slots_accept_legal_values", t, mode="E1s", functions=F, stubs=[MODEL], env={"VERIF_PART": str(p)},
                        bounds="classes with index %% 8 == %d of 59 (SDO/SRO/SCO of both versions) x every slot x legal value classes of the frozen model; granular markings on every property" % p))
@@ -42,6 +42,9 @@ def obligations(tier):
                        bounds="embedded-type sites and 2.1 extensions with index %% 8 == %d of 119 x every slot x legal value classes" % p))
         obls.append(CH("containers_p%d" % p, H, "containers", t, mode="E1s", functions=F, env={"VERIF_PART": str(p)},
                        bounds="every SDO/SRO class inside a bundle; 4 observed-data 2.0 containers with forward/backward references, alone and in a bundle (index %% 8 == %d)" % p))
+    obls.append(CH("granular_markings_deep_selectors", H, "deep_selectors", t, mode="E1s", functions=F + ["stix2.markings.utils.validate", "stix2.markings.utils._evaluate_expression",
+                   "stix2.markings.utils.iterpath"], bounds="7 documents (12-element lists, 11 embedded objects, sibling dictionary keys that extend one another, nested "
+                   "extensions, 2.0 observed-data members) x every JSON path of the document as the single selector, marking-ref and lang, alone and in a bundle"))
     obls.append(JOB("timestamp_texts_accepted", "props.j_time", "job_accepts", 600, functions=F[5:6], finding="C03-frac7",
                     bounds="every canonical timestamp text with no fraction or 1..9 fractional digits, symbolic fields and digits, 3x2 precision settings"))
     return obls
